@@ -49,14 +49,46 @@ def configs(tier):
                 continue
             div = shape[0] % n0 == 0 and shape[1] % n1 == 0
             out.append(dict(shape=list(shape), counts=[n0, n1], colour=False, divisible=div))
+    # bit-precise lemma: the ceil() that sizes the patches, in IEEE doubles
+    pairs = [(nv, n) for nv in range(1, 13 if tier == "quick" else 41) for n in range(1, 7) if _buildable(nv, n)]
+    if tier == "quick":
+        pairs = [p for p in pairs if p[0] in (1, 2, 3, 6, 7, 9, 10, 12)]
+    for nv, n in pairs:
+        out.append(dict(fp=True, nv=nv, n=n))
     out.append(dict(shape=[4, 6], counts=[2, 3], colour=True, divisible=True))
     out.append(dict(shape=[5, 4], counts=[2, 3], colour=True, divisible=False))
     return out
 
 
+class _Stop(Exception):
+    pass
+
+
+def body_fp(cfg, darsia):
+    """patch size in voxels must equal ceil(nv/n) for EVERY physical extent D, in IEEE doubles.
+    The real Patches.__init__ runs on a floating-point symbol D up to the point where the patch size
+    is known (the sub-image extraction is cut off)."""
+    nv, n = cfg["nv"], cfg["n"]
+    D = S.fp("D", 1e-4, 1e4)
+    img = darsia.Image(np.zeros((nv, 2)), dimensions=[D, 1.0], scalar=True)
+
+    def stop(*a, **k):
+        raise _Stop()
+
+    img.subregion = stop
+    P = object.__new__(darsia.Patches)
+    try:
+        darsia.Patches.__init__(P, img, [n, 1])
+    except _Stop:
+        pass
+    S.claim("fp_patch_size_in_voxels_is_ceil_of_extent_over_count", S.eq(P.pv[0], -(-nv // n)))
+
+
 def body(cfg):
     import darsia
 
+    if cfg.get("fp"):
+        return body_fp(cfg, darsia)
     shape = tuple(cfg["shape"])
     n = cfg["counts"]
     full = shape + ((3,) if cfg["colour"] else ())
